@@ -225,6 +225,10 @@ for _f in AMORPH_FNS:
     COMPONENTS[f"amorph.{_f}"] = (_mk_amorph_component(_f), "full")
 
 
+def _probe_name(spec):
+    return specs.build_indicator({**spec, "fill": False, "ha": False, "life": None}, []).name
+
+
 def gen_hexital(rng, size, ha_ok=False, life_ok=False, programs=True, enc=None):
     """a Hexital with 1..4 members (mixed timeframes), fed through a schedule, with façade operations"""
     n = rng.randint(0, size)
@@ -245,8 +249,15 @@ def gen_hexital(rng, size, ha_ok=False, life_ok=False, programs=True, enc=None):
     ha = ha_ok and rng.random() < 0.3
     life = base_step * rng.randint(5, 60) if (life_ok and rng.random() < 0.3) else None
     lines = []
+    member_names = []
     for sp in members:
         lines.append(f"hmember {specs.spec_params(sp)} form={rng.choice(['obj', 'obj', 'dict'])}")
+        try:
+            member_names.append(_probe_name(sp))
+        except Exception:  # noqa
+            pass
+    if not member_names:
+        member_names = ["SMA_5"]
     lines.append(f"hnew tf={htf or '-'} fill={int(rng.random() < 0.3 and htf is not None)} ha={int(ha)} life={'-' if life is None else life} "
                  + wire.enc_candles(parts[0]))
     lines += ["hcalc", "hsnap"]
@@ -257,7 +268,7 @@ def gen_hexital(rng, size, ha_ok=False, life_ok=False, programs=True, enc=None):
         if programs and rng.random() < 0.25:
             lines.append("hacc names")
             k = rng.random()
-            tgt = "-" if rng.random() < 0.3 else rng.choice(["EMA_3", "SMA_5", "TR", "OBV", "RSI_14"])
+            tgt = "-" if rng.random() < 0.2 else rng.choice(member_names + ["EMA_3", "TR"])
             if k < 0.2:
                 lines.append(f"hpurge name={tgt}")
             elif k < 0.4:
@@ -267,7 +278,13 @@ def gen_hexital(rng, size, ha_ok=False, life_ok=False, programs=True, enc=None):
             elif k < 0.7:
                 lines.append(f"hrem name={tgt}")
             elif k < 0.85:
-                lines.append(f"hmember {specs.spec_params(specs.gen_spec(rng))} form=obj")
+                # add a new member – half of the time one that re-uses the name of an existing (possibly removed) member
+                sp2 = specs.gen_spec(rng)
+                if rng.random() < 0.5:
+                    sp2 = dict(rng.choice(members))
+                    if "input" in sp2:
+                        sp2["input"] = rng.choice(["high", "low", "open"])
+                lines.append(f"hmember {specs.spec_params(sp2)} form=obj")
                 lines.append("hadd")
             lines.append("hcalc")
             lines.append("hsnap")
@@ -294,10 +311,6 @@ def gen_hexital_life(rng, size):
 DICT_FIELDS = {"BBANDS": ["BBL", "BBM", "BBU"], "KC": ["lower", "band", "upper"], "DONCHIAN": ["DCL", "DCM", "DCU"], "HL": ["low", "high"],
                "SUPERTREND": ["trend", "direction", "long", "short"], "MACD": ["MACD", "signal", "histogram"],
                "STOCH": ["stoch", "k", "d"], "AROON": ["AROONU", "AROOND", "AROONOSC"], "ADX": ["ADX", "DM_Plus", "DM_Neg"]}
-
-
-def _probe_name(spec):
-    return specs.build_indicator({**spec, "fill": False, "ha": False, "life": None}, []).name
 
 
 @component("access")
